@@ -41,6 +41,7 @@ type OutCase struct {
 	StallUntilDone bool `json:"stall,omitempty"` // the peer reads nothing until the writers are done
 	PeerPauseUs int `json:"peer_pause_us,omitempty"`
 	Added      bool `json:"added,omitempty"`  // connection is dialed with nbio.Dial and added with AddConn (instead of accepted)
+	DialAsync  bool `json:"dial_async,omitempty"` // connection is made by Engine.DialAsync; the "open" operations run inside the dial callback
 }
 
 func (c *OutCase) copy() *OutCase {
@@ -112,6 +113,7 @@ func genOutCase(r *simrt.Rand, tier string, prop string) *OutCase {
 	c.StallUntilDone = r.Bool(0.4)
 	c.PeerPauseUs = r.Pick(0, 0, 10, 1000)
 	c.Added = r.Bool(0.15) && c.Eng.Network == "tcp"
+	c.DialAsync = !c.Added && r.Bool(0.12) && c.Eng.Network == "tcp"
 	nops := r.Range(1, 6)
 	if tier == "thorough" {
 		nops = r.Range(1, 10)
@@ -291,6 +293,11 @@ func shrinkOut(ci interface{}) []interface{} {
 	if c.PeerPauseUs > 0 {
 		x := c.copy()
 		x.PeerPauseUs = 0
+		out = append(out, x)
+	}
+	if c.DialAsync {
+		x := c.copy()
+		x.DialAsync = false
 		out = append(out, x)
 	}
 	if c.Added {
@@ -718,6 +725,40 @@ func runOut(t *testing.T, ci interface{}, trace bool, prop string) *common.Outco
 				o.Probe("addconn_failed")
 				return
 			}
+		} else if c.DialAsync {
+			// the engine connects by itself; the dial callback is this connection's open
+			// notification, and a backlog written inside it must drain like any other
+			la := &kernel.Addr{Net: "tcp", IP: [4]byte{127, 0, 0, 1}, Port: 7100}
+			ln, err := w.K.Listen(la)
+			if err != nil {
+				o.Infra = "listen: " + err.Error()
+				return
+			}
+			cs = w.Expect("127.0.0.1:7100", nil)
+			cs.Dialed = true
+			hookup(cs)
+			err = w.G.DialAsync("tcp", "127.0.0.1:7100", func(nc *nbio.Conn, err error) {
+				cs.DialCB++
+				cs.DialErr = err
+				if err != nil || nc == nil {
+					return
+				}
+				cs.C = nc
+				w.byC[nc] = cs
+				if ks := w.K.SockOf(ProbeFD(nc)); ks != nil && ks.Peer() != nil {
+					cs.Peer = ks.Peer()
+					cs.Local = ks
+				}
+				cs.InCallback++
+				cs.OnOpenHook(cs)
+				cs.InCallback--
+				cs.OpenDone = true
+			})
+			if err != nil {
+				o.Infra = "DialAsync: " + err.Error()
+				return
+			}
+			_ = ln
 		} else {
 			var err error
 			cs, err = w.ConnectPeer()
